@@ -127,6 +127,7 @@ def mix_matrix(ctx, rel, qual):
 
 
 def run(ctx):
+    integrity(ctx, ['crysp/aes.py', 'crysp/chacha.py', 'crysp/des.py', 'crysp/salsa20.py', 'crysp/serpent.py', 'crysp/threefish.py', 'crysp/utils/operators.py'])
     # ------------------------------------------------------------ R1 finite pairs
     ctx.rule('C03-R1 finite inverse pairs')
 
@@ -338,6 +339,8 @@ def run(ctx):
         fors = [x for x in T.walk(e) if x[0] == 'for']
         ctx.check('DES.enc rounds', len(fors) == 1 and fors[0][2] == rng, 'encryption does not run rounds 0..15 in order', ctx.where(DES, 'DES.enc'))
         e2 = T.substitute(e, {rng: rev})
+        # the two methods may name their block parameter differently: compare bodies under dec's signature
+        e2 = ('fn', d[1], e2[2])
         ctx.same_term('DES.dec mirrors enc', d, e2, ctx.where(DES, 'DES.dec'), what='DES.dec must be DES.enc with the round order reversed:')
 
         def chain(t):
